@@ -39,6 +39,33 @@ fn side_of_task(name: &str, kind: TaskKind) -> Side {
     }
 }
 
+/// an endpoint whose application stopped accepting and whose accept queue is full has acknowledged one more Connect and
+/// now blocks its receive loop on handing that stream over (see the precondition note in `teardown_oracle`)
+pub fn accept_blocked(case: &Case, run: &RunResult) -> bool {
+    (0..2).any(|s| {
+        if case.raw.is_some() && s == 1 {
+            return false;
+        }
+        let mut acked = 0usize;
+        for (i, e) in run.events.iter().enumerate() {
+            if let Ev::Recv { side, msg: WMsg::Frame(RFrame::Connect { id, .. }) } = &e.ev {
+                if *side == s {
+                    let answer = run.events[i..].iter().find_map(|x| match &x.ev {
+                        Ev::Sent { side: s2, msg: WMsg::Frame(RFrame::Acknowledge { id: a2, .. }), .. } if *s2 == s && a2 == id => Some(true),
+                        Ev::Sent { side: s2, msg: WMsg::Frame(RFrame::Reset { id: a2 }), .. } if *s2 == s && a2 == id => Some(false),
+                        _ => None,
+                    });
+                    if answer == Some(true) {
+                        acked += 1;
+                    }
+                }
+            }
+        }
+        let taken = run.app_events().filter(|(_, e)| matches!(e, AppEv::Accepted { side, .. } if *side == s)).count();
+        acked > taken + case.opts[s].stream_buf
+    })
+}
+
 /// Oracle after an injected fault. `sides`: whose obligations are checked.
 pub fn teardown_oracle(case: &Case, run: &RunResult, fault: usize, b_knows: bool) -> Result<bool, V> {
     let a = Analysis::new(case, run);
@@ -53,8 +80,17 @@ pub fn teardown_oracle(case: &Case, run: &RunResult, fault: usize, b_knows: bool
         // a sink that failed while the endpoint had nothing to send, with a peer that stays silent: nothing to notice yet
         return Ok(false);
     }
+    // Precondition shared with C04 ("keeps accepting new streams"): an endpoint whose application has stopped accepting and
+    // whose accept queue (stream_buffer_size) is full blocks its receive loop on the next Connect it acknowledges, by design;
+    // from then on it cannot read anything the peer sends - a Close included - and the peer waits for its answer. Such runs
+    // keep the safety clauses below but no completion obligations. (A Connect dispatched after the outbound queue was
+    // closed is not acknowledged and must not block: that case is not waived.)
+    let accept_blocked = accept_blocked(case, run);
     // 1. the connection task future completed
     for &s in &sides {
+        if accept_blocked {
+            break;
+        }
         if run.task_exit[s].is_none() {
             return Err((
                 format!("c08-task-hangs:{name}"),
@@ -64,7 +100,7 @@ pub fn teardown_oracle(case: &Case, run: &RunResult, fault: usize, b_knows: bool
     }
     // 2. every application future of those sides completed
     let stuck: Vec<String> = run.tasks.iter().filter(|t| !t.2 && sides.contains(&side_of_task(&t.0, t.1))).map(|t| t.0.clone()).collect();
-    if !stuck.is_empty() {
+    if !stuck.is_empty() && !accept_blocked {
         let w = &stuck[0];
         let what = if w.starts_with("accept") {
             "accept"
@@ -140,7 +176,7 @@ pub fn teardown_oracle(case: &Case, run: &RunResult, fault: usize, b_knows: bool
         if sent.last() != Some(&&WMsg::Close) {
             return Err(("c08-drop-no-close".into(), format!("after dropping the Multiplexor the last message on the wire is {:?}, not Close", sent.last().map(|m| m.short()))));
         }
-        if sent != recvd {
+        if sent != recvd && !accept_blocked {
             return Err(("c08-drop-not-delivered".into(), format!("messages sent by the dropped side ({}) and received by the peer ({}) differ: sent [{}], received [{}]", sent.len(), recvd.len(), sent.iter().map(|m| m.short()).collect::<Vec<_>>().join(", "), recvd.iter().map(|m| m.short()).collect::<Vec<_>>().join(", "))));
         }
         for (i, s) in a.streams.iter().enumerate() {
@@ -174,6 +210,10 @@ pub fn teardown_oracle(case: &Case, run: &RunResult, fault: usize, b_knows: bool
     Ok(pending_seen)
 }
 
+fn accept_policy() -> impl Strategy<Value = AcceptPolicy> {
+    prop_oneof![5 => Just(AcceptPolicy::All), 1 => Just(AcceptPolicy::Never), 2 => (0u8..3).prop_map(AcceptPolicy::Count)]
+}
+
 fn c08_base() -> impl Strategy<Value = Case> {
     let sh = Shape { max_streams: 3, max_wops: 5, allow_empty: true, allow_drop: true, complete: false, small_windows: true, max_sched: 60 };
     (
@@ -187,9 +227,9 @@ fn c08_base() -> impl Strategy<Value = Case> {
         0usize..3,
         prop::collection::vec((0usize..2, any::<bool>(), 0u8..3), 0..3),
         prop::sample::select(vec![BindAnswer::Accept, BindAnswer::Hold, BindAnswer::Reject, BindAnswer::Hold]),
-        (schedule(60), prop::collection::vec(0u32..80, 0..4), prop::sample::select(vec![[false, false], [true, false], [true, true], [false, false]])),
+        (schedule(60), prop::collection::vec(0u32..80, 0..4), prop::sample::select(vec![[false, false], [true, false], [true, true], [false, false]]), accept_policy(), accept_policy()),
     )
-        .prop_map(|(mut o0, mut o1, c0, c1, r0, r1, streams, ndg, binds, ans, (schedule, ticks, keepalive))| {
+        .prop_map(|(mut o0, mut o1, c0, c1, r0, r1, streams, ndg, binds, ans, (schedule, ticks, keepalive, acc0, acc1))| {
             o0.retries = r0;
             o1.retries = r1;
             o0.bind_buf = 2;
@@ -206,6 +246,8 @@ fn c08_base() -> impl Strategy<Value = Case> {
                 binds,
                 bind_policy: [bp.clone(), bp],
                 schedule,
+                // an application that stops accepting: the accept queue (stream_buffer_size) fills up and later Connects wait
+                acceptors: [acc0, acc1],
                 // keepalive: Ping messages share the outbound queue with frames (the drain after a drop must pass them)
                 keepalive,
                 events: if keepalive.iter().any(|k| *k) { ticks.into_iter().map(|at| RawEvent { when: Trigger::FromStep(at), what: What::Tick }).collect() } else { vec![] },
@@ -229,8 +271,12 @@ pub fn run_c08(c: &C08Case) -> Outcome {
     // the fault-free base must itself be clean
     {
         let a = Analysis::new(&c.base, &base_run);
+        let blocked = accept_blocked(&c.base, &base_run);
         if let Err((sig, msg)) = a.integrity().and_then(|_| a.end_of_stream()) {
-            return Outcome::violation(format!("base:{sig}"), msg);
+            // with a receive loop blocked on a full accept queue, the end-of-stream notices behind it cannot arrive
+            if !(blocked && (sig == "c05-eof-not-delivered" || sig == "c05-write-hangs-after-abort")) {
+                return Outcome::violation(format!("base:{sig}"), msg);
+            }
         }
     }
     let n = base_run.steps as u32;
